@@ -133,4 +133,20 @@ def sweep(ctx, n):
                     if any(np.min(np.linalg.norm(P - g, axis=1)) > 1e-6 for g in glob):
                         bad("polyline-trace", f"a conductor vertex is not on the drawn line at path index {j}")
                         break
+        # explicit frame lists, including indices beyond the path length (an object shorter than the index stays at its last pose)
+        for trial in range(max(3, n // 6)):
+            nps = np.random.default_rng(rng.randrange(2**31))
+            m = rng.choice([3, 4, 5])
+            pos = np.cumsum(nps.uniform(0.5, 2, (m, 3)), axis=0)
+            obj = magpy.magnet.Cuboid(dimension=(0.3, 0.3, 0.3), polarization=(0, 0, 1), position=pos)
+            frames = sorted(set([0, rng.randrange(m), m + rng.choice([0, 3, 6])]))
+            fig = magpy.show(obj, backend="plotly", return_fig=True, style_path_frames=frames)
+            done += 1
+            kinds["frames-list"] = kinds.get("frames-list", 0) + 1
+            V = np.concatenate([xyz(t) for t in fig.data if type(t).__name__ == "Mesh3d"])
+            centres = sorted({tuple(np.round(c, 6)) for c in V.reshape(-1, 8, 3).mean(axis=1)}) if len(V) % 8 == 0 else None
+            want = sorted({tuple(np.round(pos[min(f, m - 1)], 6)) for f in frames})
+            if centres is None or centres != want:
+                bad("frames-list", f"with style_path_frames={frames} on a path of length {m} the object is not drawn at the poses of indices {[min(f, m - 1) for f in frames]}",
+                    {"frames": frames, "path_length": m, "drawn_centres": centres, "expected_centres": want})
     return fails, {"c19_figures": done, "c19_kinds": kinds}
